@@ -167,7 +167,48 @@ def renumber(ops, i):
 def step_oracle(im, ops, i, st):
     return consistent(im.g)
 
+def generated_case(rnd):
+    """a graph generated from a random language and model (duplicate edges arise when two paths or two step expressions
+    reach the same target), regenerated, then edited: consistency after every step (real objects only)"""
+    from ..langgen import LangGen, gen_model, build_lang, build_model
+    from maltoolbox.attackgraph import AttackGraph
+    from maltoolbox.attackgraph.analyzers import apriori
+    spec = LangGen(rnd).gen(); inst = gen_model(rnd, spec)
+    lg, fac = build_lang(spec); m, _ = build_model(fac, inst)
+    g = AttackGraph(lg, m)
+    steps = ['generate']
+    probs = consistent(g)
+    if not probs and rnd.random() < 0.5:
+        g.regenerate_graph(); steps.append('regenerate'); probs = consistent(g)
+        fresh = AttackGraph(lg, m)
+        if not probs and fresh._to_dict() != g._to_dict(): probs = ['a regenerated graph differs from a freshly generated one']
+    for _ in range(rnd.randint(1, 6)):
+        if probs or not g.nodes: break
+        k = rnd.choice(['remove_node', 'remove_node', 'analyse_prune'])
+        try:
+            if k == 'remove_node':
+                n = rnd.choice(g.nodes); steps.append(f'remove_node {n.full_name}'); g.remove_node(n)
+            else:
+                steps.append('analyse + prune'); apriori.calculate_viability_and_necessity(g); apriori.prune_unviable_and_unnecessary_nodes(g)
+        except Exception as e:
+            probs = [f'{steps[-1].split()[0]} raises {type(e).__name__} on a generated graph']; break
+        probs = consistent(g)
+    return probs, {'spec': spec, 'inst': inst, 'steps': steps}
+
 def run(seed, tier, lean) -> Result:
+    res = _run(seed, tier, lean)
+    r = random.Random(seed ^ 0xC09)
+    for _ in range(150 if tier == 'quick' else 6000):
+        cs = r.getrandbits(48)
+        probs, info = generated_case(random.Random(cs))
+        res.evaluations += 1; res.bump('generated_graph_cases')
+        if probs:
+            res.violations.append(Violation(what=f'{probs[0]} (graph generated from a language and model; steps: {info["steps"][-3:]})',
+                                            fingerprint='C09:generated:' + probs[0].split(' ')[0] + probs[0][-12:], replay={'generated_seed': cs, **info, 'problems': probs}))
+            break
+    return res
+
+def _run(seed, tier, lean) -> Result:
     res = run_histories('C09', seed, tier, lean, WEIGHTS, step_oracle,
                         lambda kinds, ops: len(kinds & {'remove_node', 'remove_attacker', 'add_attacker', 'prune', 'undo', 'attach'}) >= 2,
                         quick_n=400, thorough_n=20000)
@@ -179,6 +220,9 @@ def run(seed, tier, lean) -> Result:
 
 def replay(path):
     r = json.load(open(path))
+    if 'generated_seed' in r:
+        probs, _ = generated_case(random.Random(r['generated_seed'])); print(probs)
+        print('VIOLATION reproduced' if probs else 'not reproduced'); return 1 if probs else 0
     probs = failing_oracle(r['ops'], step_oracle)
     print('problems:', probs)
     print('VIOLATION reproduced' if probs else 'not reproduced')
